@@ -1,28 +1,27 @@
-//! C40 — replicated logs never diverge (Raft, Paxos), through hook H3 and the deviation-bounded
+//! C40 — replicated logs never diverge (Raft; Paxos cannot run in the repo's simulator, see the
+//! assumptions recorded in `run`), through hook H3 and the deviation-bounded
 //! explorer: ALL executions with at most `bound` non-default simulator decisions.
-use std::collections::{BTreeMap, BTreeSet};
+use std::collections::BTreeSet;
 use std::time::{Duration, Instant};
 
-use hydro_lang::live_collections::stream::{ExactlyOnce, NoOrder, TotalOrder};
+use hydro_lang::live_collections::stream::{ExactlyOnce, TotalOrder};
 use hydro_lang::location::MemberId;
 use hydro_lang::prelude::*;
 use hydro_lang::sim::compiled::CompiledSim;
 use hydro_lang::sim::{SimClusterReceiver, SimClusterSender};
 use hydro_test::cluster::raft::{LogEntry, RaftConfig, Replica, raft};
 use vf_explore::{Chooser, Report, Stats, Value, json};
-use vf_hydro_sim2::paxos_gen::{Acceptor, Ballot, Proposer, verif_paxos_core};
 
 use crate::driver::{RunEnd, run_with_chooser};
 use crate::{Rec, machinery};
 
-const N: usize = 3; // Raft members / Paxos acceptors (f = 1)
-const PROPOSERS: usize = 2; // f + 1
+const N: usize = 3; // Raft members
 /// Runaway guard: no execution of these bounded inputs comes near this many decisions.
 const MAX_POINTS: usize = 20_000;
 
 #[derive(Clone, Copy, Debug, PartialEq, Eq, Hash)]
 pub struct Cfg {
-    /// "raft" | "paxos"
+    /// "raft"
     pub proto: &'static str,
     /// "concurrent": every input up front, one final drain (repo: fully_concurrent_run_...);
     /// "seeded": member 0 is elected first behind a quiescence barrier, then everything else at
@@ -41,7 +40,7 @@ impl Cfg {
     }
     fn from_json(v: &Value) -> Self {
         Cfg {
-            proto: if v["proto"] == "paxos" { "paxos" } else { "raft" },
+            proto: "raft",
             shape: if v["shape"] == "seeded" { "seeded" } else { "concurrent" },
             elections: v["elections"].as_u64().unwrap_or(1) as usize,
             requests: v["requests"].as_u64().unwrap_or(1) as usize,
@@ -83,44 +82,6 @@ pub fn build_raft() -> RaftSim {
     RaftSim { sim, election, heartbeat, request, committed, redirected }
 }
 
-pub struct PaxosSim {
-    sim: CompiledSim,
-    election: SimClusterSender<(), TotalOrder, ExactlyOnce>,
-    heartbeat: SimClusterSender<(), TotalOrder, ExactlyOnce>,
-    payload: SimClusterSender<u32, TotalOrder, ExactlyOnce>,
-    ballots: SimClusterReceiver<Ballot, TotalOrder, ExactlyOnce>,
-    committed: SimClusterReceiver<(usize, Option<u32>), NoOrder, ExactlyOnce>,
-}
-
-/// The repo's Paxos (source-included, see build.rs) behind interrupt-driven timers.
-pub fn build_paxos() -> PaxosSim {
-    let mut flow = FlowBuilder::new();
-    let proposers = flow.cluster::<Proposer>();
-    let acceptors = flow.cluster::<Acceptor>();
-    let (election, election_interrupts) = proposers.sim_input();
-    let (heartbeat, heartbeat_interrupts) = proposers.sim_input();
-    let (payload, payloads) = proposers.sim_input::<u32, _, _>();
-    let (ballots, committed) = verif_paxos_core(
-        &proposers,
-        &acceptors,
-        payloads,
-        election_interrupts,
-        heartbeat_interrupts,
-        1,
-        nondet!(/** which proposer leads is non-deterministic */),
-        nondet!(/** payloads may be dropped while the leader changes */),
-    );
-    let ballots = ballots.sim_cluster_output();
-    let committed = committed.sim_cluster_output();
-    let sim = flow
-        .sim()
-        .skip_consistency_assertions()
-        .with_cluster_size(&proposers, PROPOSERS)
-        .with_cluster_size(&acceptors, N)
-        .compiled();
-    PaxosSim { sim, election, heartbeat, payload, ballots, committed }
-}
-
 /// The safety oracle of the repo's own Raft test.
 pub fn raft_safety(h: &Histories) -> Result<(), (String, String)> {
     for (m, hist) in h.iter().enumerate() {
@@ -137,22 +98,6 @@ pub fn raft_safety(h: &Histories) -> Result<(), (String, String)> {
                     return Err(("fork".into(), format!("committed logs forked: members {a} and {b} disagree at committed position {pos}: {x:?} vs {y:?}")));
                 }
             }
-        }
-    }
-    Ok(())
-}
-
-/// Paxos: no log position is ever decided with two different values (by any proposers).
-pub fn paxos_safety(c: &[Vec<(usize, Option<u32>)>]) -> Result<(), (String, String)> {
-    let mut by_slot: BTreeMap<usize, BTreeSet<Option<u32>>> = BTreeMap::new();
-    for member in c {
-        for (slot, v) in member {
-            by_slot.entry(*slot).or_default().insert(*v);
-        }
-    }
-    for (slot, vals) in by_slot {
-        if vals.len() > 1 {
-            return Err(("fork".into(), format!("slot {slot} was decided with different values {vals:?}")));
         }
     }
     Ok(())
@@ -225,79 +170,18 @@ pub fn run_raft(rs: &RaftSim, cfg: Cfg, ch: &mut Chooser) -> Exec {
     finish(end, overflow, &rec, |h| Exec::Done { outcome: format!("{h:?}"), verdict: raft_safety(&h), progressed: h.iter().any(|x| !x.is_empty()) })
 }
 
-pub fn run_paxos(ps: &PaxosSim, cfg: Cfg, ch: &mut Chooser) -> Exec {
-    type Out = (Vec<Vec<(usize, Option<u32>)>>, Vec<Vec<(u32, u32)>>);
-    let rec: Rec<Out> = Rec::new();
-    let (end, overflow) = run_with_chooser(&ps.sim, ch, MAX_POINTS, async || {
-        let mut sent = 0u32;
-        if cfg.shape == "seeded" {
-            ps.election.send(0, ());
-            hydro_lang::sim::quiesce().await;
-            for _wave in 0..cfg.elections {
-                ps.election.send(1, ());
-                if (sent as usize) < cfg.requests {
-                    let to = sent % 2;
-                    ps.payload.send(to, 100 + sent);
-                    sent += 1;
-                }
-            }
-            while (sent as usize) < cfg.requests {
-                ps.payload.send(sent % 2, 100 + sent);
-                sent += 1;
-            }
-        } else {
-            for _wave in 0..cfg.elections {
-                for member in 0..PROPOSERS as u32 {
-                    ps.election.send(member, ());
-                    if (sent as usize) < cfg.requests {
-                        ps.payload.send(member, 100 + sent);
-                        sent += 1;
-                    }
-                }
-            }
-        }
-        for _ in 0..cfg.pumps {
-            for member in 0..PROPOSERS as u32 {
-                ps.heartbeat.send(member, ());
-            }
-        }
-        let mut commits = vec![];
-        let mut leaders = vec![];
-        for member in 0..PROPOSERS as u32 {
-            let got: Vec<(usize, Option<u32>)> = ps.committed.collect_sorted(member).await;
-            commits.push(got);
-            let b: Vec<Ballot> = ps.ballots.collect(member).await;
-            leaders.push(b.into_iter().map(|b| (b.num, b.proposer_id.get_raw_id())).collect());
-        }
-        rec.push((commits, leaders));
-    });
-    finish(end, overflow, &rec, |(c, l)| Exec::Done {
-        outcome: format!("commits {c:?} elected {l:?}"),
-        verdict: paxos_safety(&c),
-        progressed: c.iter().any(|x| !x.is_empty()),
-    })
-}
-
 pub struct Sims {
     raft: Option<RaftSim>,
-    paxos: Option<PaxosSim>,
 }
 impl Sims {
     pub fn new() -> Self {
-        Sims { raft: None, paxos: None }
+        Sims { raft: None }
     }
     pub fn run(&mut self, cfg: Cfg, ch: &mut Chooser) -> Exec {
-        if cfg.proto == "raft" {
-            if self.raft.is_none() {
-                self.raft = Some(build_raft());
-            }
-            run_raft(self.raft.as_ref().unwrap(), cfg, ch)
-        } else {
-            if self.paxos.is_none() {
-                self.paxos = Some(build_paxos());
-            }
-            run_paxos(self.paxos.as_ref().unwrap(), cfg, ch)
+        if self.raft.is_none() {
+            self.raft = Some(build_raft());
         }
+        run_raft(self.raft.as_ref().unwrap(), cfg, ch)
     }
 }
 
@@ -424,16 +308,12 @@ pub fn explore_from(starts: Vec<Vec<usize>>, bound: usize, deadline: Option<Inst
 }
 
 fn configs(thorough: bool) -> Vec<Cfg> {
-    let mut v = vec![];
-    for proto in ["raft", "paxos"] {
-        v.push(Cfg { proto, shape: "concurrent", elections: 1, requests: 1, pumps: 2 });
-        v.push(Cfg { proto, shape: "seeded", elections: 1, requests: 2, pumps: 2 });
-        if thorough {
-            v.push(Cfg { proto, shape: "concurrent", elections: 2, requests: 2, pumps: 3 });
-            v.push(Cfg { proto, shape: "seeded", elections: 2, requests: 2, pumps: 4 });
-        }
+    let c = |shape, elections, requests, pumps| Cfg { proto: "raft", shape, elections, requests, pumps };
+    if thorough {
+        vec![c("concurrent", 1, 1, 2), c("concurrent", 1, 2, 3), c("concurrent", 2, 2, 4), c("seeded", 1, 1, 2), c("seeded", 1, 2, 3), c("seeded", 2, 2, 4)]
+    } else {
+        vec![c("concurrent", 1, 1, 2), c("concurrent", 2, 2, 2), c("seeded", 1, 2, 2), c("seeded", 2, 2, 3)]
     }
-    v
 }
 
 /// Worker process: explores the shard `index % nshards == shard` of the root's children.
@@ -443,6 +323,51 @@ pub fn worker(spec: &str) {
     let bound = v["bound"].as_u64().unwrap_or(1) as usize;
     let (shard, nshards) = (v["shard"].as_u64().unwrap_or(0) as usize, v["nshards"].as_u64().unwrap_or(1) as usize);
     let deadline = Instant::now() + Duration::from_secs(v["wall_s"].as_u64().unwrap_or(600));
+    let mut sims = Sims::new();
+    let mut root = Chooser::replay(vec![]);
+    let _ = sims.run(cfg, &mut root);
+    let starts: Vec<Vec<usize>> = children(&root, 0, bound).into_iter().enumerate().filter(|(i, _)| i % nshards == shard).map(|(_, p)| p).collect();
+    let ex = explore_from(starts, bound, Some(deadline), |ch| sims.run(cfg, ch));
+    println!("VF_SIM2_RESULT {}", ex.to_json());
+}
+
+fn explore_sharded(cfg: Cfg, bound: usize, nshards: usize, wall_s: u64, root: Explored) -> Explored {
+    let exe = std::env::current_exe().unwrap_or_else(|e| machinery(&format!("current_exe: {e}")));
+    let mut kids = vec![];
+    for shard in 0..nshards {
+        let spec = json!({"cfg": cfg.json(), "bound": bound, "shard": shard, "nshards": nshards, "wall_s": wall_s}).to_string();
+        let child = std::process::Command::new(&exe)
+            .args(["--property", "C40", "--tier", "thorough"])
+            .env("VF_SIM2_WORKER", spec)
+            .stdout(std::process::Stdio::piped())
+            .stderr(std::process::Stdio::null())
+            .spawn()
+            .unwrap_or_else(|e| machinery(&format!("cannot spawn worker: {e}")));
+        kids.push(child);
+    }
+    let mut total = root;
+    for (i, k) in kids.into_iter().enumerate() {
+        let out = k.wait_with_output().unwrap_or_else(|e| machinery(&format!("worker {i}: {e}")));
+        let txt = String::from_utf8_lossy(&out.stdout);
+        let Some(line) = txt.lines().find_map(|l| l.strip_prefix("VF_SIM2_RESULT ")) else {
+            machinery(&format!("worker {i} of {} produced no result (status {:?}): {}", cfg.key(), out.status, txt.chars().take(400).collect::<String>()));
+        };
+        let v: Value = vf_explore::serde_json::from_str(line).unwrap_or_else(|e| machinery(&format!("worker {i}: bad result: {e}")));
+        total.merge(Explored::from_json(&v));
+    }
+    total
+}
+
+pub fn run(rep: &mut Report, thorough: bool, replay: Option<Value>) {
+    rep.rule = "case = (protocol, body shape, input configuration, simulator decision vector); default decision = first ready tick / release everything; ALL executions with at most `bound` non-default decisions anywhere in the run are enumerated (deviation-bounded DFS through hook H3); distinct = committed histories of all members".into();
+    rep.explanation = "exhaustive WITHIN the stated deviation bound (CHESS-style), NOT over all schedules. The repo's Raft wiring and test bodies (3 members, fail-stop TCP; either all timer interrupts / requests / heartbeat pumps up front, or member 0 elected first behind a quiescence barrier and then everything else at once), judged by the repo's own oracle: per member contiguous committed indices from 1, pairwise no fork at any committed position, no panic (raft_step's truncation guard)".into();
+    rep.assume("hook H3 (CompiledSim::verif_run_with_driver, cargo feature hydro_verif) replaces only the source of decisions");
+    rep.assume("fail-stop network model of the repo's tests; no message loss");
+    rep.assume("Paxos is NOT covered: paxos_core cannot be built by the repo's simulator — leader_election takes `.max()` and p_p1b `get_max_key()` of unbounded top-level streams, for which the simulator's code generator stops with todo!(\"Reduce with optional intermediates is not yet supported in simulator\"), and p_leader_heartbeat needs wall-clock sources (sample_every / timeout / source_interval_delayed) that the simulator's timer-less tokio runtime cannot run; the repo has no full-protocol Paxos simulation test either");
+    let bound: usize = std::env::var("VF_C40_BOUND").ok().and_then(|s| s.parse().ok()).unwrap_or(if thorough { 3 } else { 2 });
+    rep.bound("deviation_bound", bound);
+    rep.bound("raft_members", N);
+
     let mut sims = Sims::new();
     let mut root = Chooser::replay(vec![]);
     let _ = sims.run(cfg, &mut root);
